@@ -79,17 +79,18 @@ type End struct {
 
 	NRead, NWritten int
 	// fault plan
-	ReadFailAfter int // >=0: Read fails once this many envelopes were delivered
-	ReadFailErr   error // the error the failing Read returns (nil: ErrReadFault); real transports fail with io.EOF, wrapped errors, ...
-	WriteFailAt   int // >=0: the k-th Write (0-based) and all later ones fail
-	DropWriteAt   int // the k-th envelope written on this end is accepted and silently lost (-1: none)
-	FailNextWrites     int  // the next n Writes fail (then the plan continues)
-	WriteFailsWithRead bool // once a Read has failed by plan, Writes fail too
-	ReadFailed    bool
+	ReadFailAfter      int   // >=0: Read fails once this many envelopes were delivered
+	ReadFailErr        error // the error the failing Read returns (nil: ErrReadFault); real transports fail with io.EOF, wrapped errors, ...
+	WriteFailAt        int   // >=0: the k-th Write (0-based) and all later ones fail
+	DropWriteAt        int   // the k-th envelope written on this end is accepted and silently lost (-1: none)
+	DeliverThenFailAt  int   // the k-th envelope written on this end IS delivered, but the Write reports an error (-1: none)
+	FailNextWrites     int   // the next n Writes fail (then the plan continues)
+	WriteFailsWithRead bool  // once a Read has failed by plan, Writes fail too
+	ReadFailed         bool
 	// hooks run inline in the calling thread
-	OnWrite func(k int, rpc *Rpc) // before the k-th envelope is enqueued
+	OnWrite     func(k int, rpc *Rpc) // before the k-th envelope is enqueued
 	OnWriteCall func(k int, rpc *Rpc) // at the start of every Write call, before any injected failure
-	OnRead  func(k int, rpc *Rpc) // after the k-th envelope was dequeued
+	OnRead      func(k int, rpc *Rpc) // after the k-th envelope was dequeued
 }
 
 func NewPipe(tap *Tap, o PipeOpts) *Pipe {
@@ -99,8 +100,8 @@ func NewPipe(tap *Tap, o PipeOpts) *Pipe {
 	ab := make(chan *Rpc, o.Cap)
 	ba := make(chan *Rpc, o.Cap)
 	p := &Pipe{Opts: o, Tap: tap}
-	p.A = &End{p: p, dir: "a2b", in: ba, out: ab, brk: make(chan struct{}), ReadFailAfter: -1, WriteFailAt: -1, DropWriteAt: -1}
-	p.B = &End{p: p, dir: "b2a", in: ab, out: ba, brk: make(chan struct{}), ReadFailAfter: -1, WriteFailAt: -1, DropWriteAt: -1}
+	p.A = &End{p: p, dir: "a2b", in: ba, out: ab, brk: make(chan struct{}), ReadFailAfter: -1, WriteFailAt: -1, DropWriteAt: -1, DeliverThenFailAt: -1}
+	p.B = &End{p: p, dir: "b2a", in: ab, out: ba, brk: make(chan struct{}), ReadFailAfter: -1, WriteFailAt: -1, DropWriteAt: -1, DeliverThenFailAt: -1}
 	return p
 }
 
@@ -213,6 +214,9 @@ func (e *End) Write(ctx context.Context, rpc *Rpc) error {
 		e.NWritten++
 		if e.p.Opts.Cap > 0 {
 			e.p.tap(e.dir, rpc)
+		}
+		if e.DeliverThenFailAt >= 0 && k == e.DeliverThenFailAt {
+			return ErrWriteFault
 		}
 		return nil
 	case <-ctx.Done():
